@@ -253,7 +253,17 @@ fn gen_value(kind: &str, pattern: &str, i: usize, n: usize, rng: &mut StdRng, sa
 }
 
 /// which rows hold values, and how many
-fn row_counts(card: &str, present: &str, density: u64, n: usize, rng: &mut StdRng) -> Vec<usize> {
+fn row_counts(card: &str, present: &str, density: u64, block: usize, n: usize, rng: &mut StdRng) -> Vec<usize> {
+    // "exact": exactly `density` rows with a value inside the 65,536-row block `block` (a seeded sample),
+    // a few rows elsewhere
+    let exact: std::collections::HashSet<usize> = if present == "exact" {
+        let lo = (block * 65536).min(n);
+        let hi = ((block + 1) * 65536).min(n);
+        let k = (density as usize).min(hi - lo);
+        rand::seq::index::sample(rng, hi - lo, k).into_iter().map(|i| lo + i).collect()
+    } else {
+        Default::default()
+    };
     (0..n)
         .map(|i| {
             let here = match present {
@@ -268,6 +278,7 @@ fn row_counts(card: &str, present: &str, density: u64, n: usize, rng: &mut StdRn
                 "dense_sparse" => if i < 65536 { rng.random_range(0..1000) < 900 } else { rng.random_range(0..1000) < 3 },
                 "sparse_dense" => if i < 65536 { rng.random_range(0..1000) < 3 } else { rng.random_range(0..1000) < 900 },
                 "edges" => [0usize, 63, 64, 65, 511, 512, 513, 65535, 65536, 65537].contains(&i) || i == n - 1,
+                "exact" => if i / 65536 == block { exact.contains(&i) } else { i % 977 == 0 },
                 _ => rng.random_range(0..1000) < density,
             };
             match card {
@@ -286,7 +297,7 @@ fn gen_table(spec: &Value, seed: u64) -> Table {
         let mut rng = StdRng::seed_from_u64(seed ^ ((ci as u64 + 1) * 0x9E37_79B9));
         let kind = c["kind"].as_str().unwrap();
         let pattern = c["pattern"].as_str().unwrap_or("small");
-        let counts = row_counts(c["card"].as_str().unwrap_or("full"), c["present"].as_str().unwrap_or("rand"), c["density"].as_u64().unwrap_or(500), n, &mut rng);
+        let counts = row_counts(c["card"].as_str().unwrap_or("full"), c["present"].as_str().unwrap_or("rand"), c["density"].as_u64().unwrap_or(500), c["block"].as_u64().unwrap_or(0) as usize, n, &mut rng);
         let mut k = 0usize;
         let rows: Rows = counts
             .iter()
